@@ -71,7 +71,7 @@ theorem hash_eq_binds (H : Bytes → Bytes) {a b : Transaction} (ha : a.WF) (hb 
     (h : H (encode (stripSigHeader a)) = H (encode (stripSigHeader b))) :
     stripSigHeader a = stripSigHeader b ∨ Collision H := by
   by_cases he : encode (stripSigHeader a) = encode (stripSigHeader b)
-  · exact Or.inl (encode_injective (WF_stripSigHeader ha) (WF_stripSigHeader hb) he)
+  · exact Or.inl (encode_injective_aux (WF_stripSigHeader ha) (WF_stripSigHeader hb) he)
   · exact Or.inr ⟨_, _, he, h⟩
 
 /-- binding along the `next` chain below a pair of members already known to agree. -/
